@@ -169,9 +169,13 @@ impl Sim {
         let cache = world.lock().unwrap().cache;
         let r = block_on(AssertUnwindSafe(async move {
             let st = backend::storage(&w).await.map_err(|e| format!("err:{e}"))?;
+            // the builder's options are independent of the order in which they are set: alternate the order
+            static ORDER: std::sync::atomic::AtomicUsize = std::sync::atomic::AtomicUsize::new(0);
+            let cache_first = ORDER.fetch_add(1, std::sync::atomic::Ordering::Relaxed) % 2 == 0;
+            let with_cache = |b: HypercoreBuilder| match cache { Some(cap) => b.node_cache_options(if cap == 0 { hypercore::CacheOptionsBuilder::new() } else { hypercore::CacheOptionsBuilder::new().max_capacity(cap) }), None => b };
+            let with_key = |b: HypercoreBuilder| match kp.clone() { Some(kp) => b.key_pair(kp), None => b.open(true) };
             let b = HypercoreBuilder::new(st);
-            let b = match cache { Some(cap) => b.node_cache_options(if cap == 0 { hypercore::CacheOptionsBuilder::new() } else { hypercore::CacheOptionsBuilder::new().max_capacity(cap) }), None => b };
-            let b = match kp { Some(kp) => b.key_pair(kp), None => b.open(true) };
+            let b = if cache_first { with_key(with_cache(b)) } else { with_cache(with_key(b)) };
             b.build().await.map_err(|e| format!("err:{e}"))
         }).catch_unwind());
         match r { Ok(x) => x, Err(_) => Err("panic".into()) }
@@ -613,6 +617,25 @@ impl Sim {
                     Some((_, bit)) => {
                         let current = o.entries.iter().take_while(|e| e.bit == bit).count() as u64;
                         if current != h.unflushed_entries { lfail = Some(format!("a reader of the JavaScript layout finds {current} entries carrying the current header bit, but {} entries were written since the last flush (slot bits {:?}/{:?}, entry bits {:?})", h.unflushed_entries, o.slot0.as_ref().map(|s| s.bit), o.slot1.as_ref().map(|s| s.bit), o.entries.iter().map(|e| e.bit).collect::<Vec<_>>())); }
+                    }
+                }
+                // independent readers of the other stores (JavaScript layout): the bitfield store is a flat array of
+                // bits, bit i in byte i/8 (pages of 4096 bytes back to back); the data store is the blocks back to back
+                if lfail.is_none() {
+                    let o = &h.oracle;
+                    if h.unflushed_entries == 0 {
+                        let bit = |i: u64| -> bool { f[2].get((i / 8) as usize).map(|b| b >> (i % 8) & 1 == 1).unwrap_or(false) };
+                        let nbits = (f[2].len() as u64) * 8;
+                        let mut bad: Option<u64> = None;
+                        for i in 0..o.len.max(nbits) { if bit(i) != o.has(i) { bad = Some(i); break; } }
+                        if let Some(i) = bad { lfail = Some(format!("just flushed: a reader of the JavaScript bitfield layout (bit i in byte i/8 of the bitfield store, {} bytes) finds block {i} {}, the core {}", f[2].len(), if bit(i) { "held" } else { "missing" }, if o.has(i) { "holds it" } else { "does not hold it" })); }
+                    }
+                    if lfail.is_none() {
+                        let mut off = 0usize;
+                        for (i, b) in o.blocks.iter().enumerate() {
+                            if o.has(i as u64) && !b.is_empty() && f[1].get(off..off + b.len()) != Some(&b[..]) { lfail = Some(format!("the data store does not hold block {i} at byte offset {off} (blocks back to back)")); break; }
+                            off += b.len();
+                        }
                     }
                 }
                 if let Some(d) = lfail { self.fail("js-layout-reader-disagrees", d); }
